@@ -631,15 +631,22 @@ pub fn plan_ultra_world(ws: u64, corpus: &Corpus, o: &PlanOpts, env: &Env) -> Wo
     for i in 0..k {
         reference.events.push(Event::Expand { tid: 0, input: i as u32 });
     }
-    // fillers: inputs that share no name with anything above
-    let n_fill = 8usize;
+    // fillers: 2048 different small inputs that share no name with anything above and none with
+    // each other (a steady supply of new type paths: tables with a capacity overflow every few
+    // hundred expansions); each mentions its first counterpart again after another one
+    let n_fill = 2048usize;
     let mut texts = texts;
     for i in 0..n_fill {
-        let t = match i % 4 {
-            0 => format!("#[map(FillDto{0})]\nstruct Fill{0} {{ x: i32 }}\n", i),
-            1 => format!("#[from_owned(FillDto{0})]\n#[owned_into(FillDto{0})]\nstruct Fill{0}(i32, String);\n", i),
+        // (1, 2 or 3 new type paths per filler, in no regular pattern: a table's fill level meets
+        // every alignment)
+        let t = match rng.below(7) {
+            4 => format!("#[map(FillSolo{0})]\nstruct Fill{0} {{ #[map(FillSolo{0}| renamed)] x: i32 }}\n", i),
+            5 => format!("#[from_owned(FillDto{0})]\n#[owned_into(FillOther{0})]\n#[ref_into(FillThird{0})]\n#[owned_into(FillDto{0})]\nstruct Fill{0} {{ #[map(FillDto{0}| renamed)] #[ref_into(FillThird{0}| third)] x: i32 }}\n", i),
+            6 => format!("#[into(FillOther{0})]\n#[from(FillDto{0})]\n#[where_clause(FillOther{0}| T: Copy)]\nstruct Fill{0} {{ #[from(FillDto{0}| a)] #[into(FillOther{0}| b)] x: i32 }}\n", i),
+            0 => format!("#[from_owned(FillDto{0})]\n#[owned_into(FillOther{0})]\n#[owned_into(FillDto{0})]\nstruct Fill{0} {{ #[map(FillDto{0}| renamed)] x: i32 }}\n", i),
+            1 => format!("#[from_owned(FillDto{0})]\n#[ref_into(FillAlt{0})]\n#[where_clause(FillDto{0}| T: Clone)]\nstruct Fill{0}(#[map(FillDto{0}| 1)] i32, #[from_owned(FillDto{0}| 0)] String);\n", i),
             2 => format!("#[map(FillDto{0})]\n#[map(FillDto{0})]\n#[where_clause(FillNope{0}| T: Clone)]\nstruct Fill{0} {{ x: i32 }}\n", i),
-            _ => format!("#[map(FillDto{0})]\nenum Fill{0} {{ A, B(i32) }}\n", i),
+            _ => format!("#[map(FillDto{0})]\n#[from_owned(FillB{0})]\nenum Fill{0} {{ #[map(FillDto{0}| Other)] A, #[ghost(FillB{0}| {{ todo!() }})] B(i32) }}\n", i),
         };
         texts.push(((k + i) as u32, t));
     }
